@@ -94,7 +94,7 @@ let handle line =
       if !bad = [] then "ok" else String.concat "," (List.rev !bad) in
     String.concat ";" [
       "ORDER " ^ (if order_ok then "ok" else "bad");
-      "MS " ^ opt_str ms;
+      "MS " ^ (if order_ok then opt_str ms else "-");
       "MD " ^ (if md = ms then "=" else opt_str md);
       "SPEC " ^ (if spec then "ok" else "bad");
       "DIN " ^ din;
